@@ -2,6 +2,7 @@
 Run channels on regular OS threads.
 */
 
+#[cfg(not(emit_rs_emit_verif))]
 use std::{
     future::{self, Future},
     io,
@@ -10,6 +11,19 @@ use std::{
     task, thread,
     time::{Duration, Instant},
 };
+
+#[cfg(emit_rs_emit_verif)]
+use std::{
+    future::{self, Future},
+    io,
+    pin::pin,
+    sync::{Arc, OnceLock},
+    task,
+    time::Duration,
+};
+
+#[cfg(emit_rs_emit_verif)]
+use crate::verif::{thread, Condvar, Instant, Mutex};
 
 use crate::{BatchError, Channel, Receiver, Sender};
 
